@@ -160,8 +160,20 @@ fn guarded(f: impl FnOnce(&mut Tracker)) {
 	IN_HOOK.with(|h| h.set(false));
 }
 
+/// Like `start`, but `shadow` already holds the durable copies (a process that takes over a
+/// directory after the previous one was killed).
+pub fn start_keep(root: &Path, shadow: &Path, check_i2: bool) {
+	start_inner(root, shadow, check_i2, true)
+}
+
 pub fn start(root: &Path, shadow: &Path, check_i2: bool) {
-	let _ = std::fs::remove_dir_all(shadow);
+	start_inner(root, shadow, check_i2, false)
+}
+
+fn start_inner(root: &Path, shadow: &Path, check_i2: bool, keep: bool) {
+	if !keep {
+		let _ = std::fs::remove_dir_all(shadow);
+	}
 	let _ = std::fs::create_dir_all(shadow);
 	IN_HOOK.with(|h| h.set(true));
 	*TRACKER.lock().unwrap_or_else(|e| e.into_inner()) =
